@@ -6,6 +6,8 @@ import (
 	"bufio"
 	"encoding/hex"
 	"fmt"
+	"os"
+	"path/filepath"
 	"strconv"
 	"strings"
 
@@ -18,6 +20,7 @@ import (
 func init() {
 	commands["litconv"] = cmdLitConv
 	commands["md"] = cmdMd
+	commands["mdfile"] = cmdMdFile
 }
 
 // cmdLitConv: per hex-encoded literal (with quotes) prints
@@ -84,5 +87,32 @@ func cmdMd(in *bufio.Reader, out *bufio.Writer, _ []string) {
 		r := []rune(string(b))
 		md.VerifLoadMd(r)
 		fmt.Fprintf(out, "%s\n", hex.EncodeToString([]byte(string(r))))
+	}
+}
+
+// cmdMdFile: like md, but through the exported entry point main.go uses: the document is written to a file and read
+// back with md.GetSource (file reading and the byte/rune conversions included).
+func cmdMdFile(in *bufio.Reader, out *bufio.Writer, _ []string) {
+	dir, err := os.MkdirTemp("", "verifmd")
+	if err != nil {
+		panic(err)
+	}
+	defer os.RemoveAll(dir)
+	name := filepath.Join(dir, "x.md")
+	sc := bufio.NewScanner(in)
+	sc.Buffer(make([]byte, 1<<20), 1<<26)
+	for sc.Scan() {
+		b, err := hex.DecodeString(strings.TrimSpace(sc.Text()))
+		if err != nil {
+			panic(err)
+		}
+		if err := os.WriteFile(name, b, 0o644); err != nil {
+			panic(err)
+		}
+		src, err := md.GetSource(name)
+		if err != nil {
+			panic(err)
+		}
+		fmt.Fprintf(out, "%s\n", hex.EncodeToString([]byte(src)))
 	}
 }
